@@ -9,6 +9,7 @@
 package main
 
 import (
+	"io"
 	"encoding/json"
 	"fmt"
 	"net/http"
@@ -129,8 +130,15 @@ func mkReq(tag int) *http.Request {
 	return req
 }
 
+// resBody is the body of the response recorded with the given tag (distinct per tag, different lengths).
+func resBody(tag int) string {
+	return fmt.Sprintf("response-body-of-operation-%d-%s", tag, strings.Repeat("x", tag%7))
+}
+
 func mkRes(tag int) *http.Response {
-	return &http.Response{StatusCode: 200 + tag, Proto: "HTTP/1.1", ProtoMajor: 1, ProtoMinor: 1, Header: http.Header{}, Body: http.NoBody, ContentLength: 0}
+	b := resBody(tag)
+	return &http.Response{StatusCode: 200 + tag, Proto: "HTTP/1.1", ProtoMajor: 1, ProtoMinor: 1, Header: http.Header{"Content-Type": {"text/plain"}},
+		Body: io.NopCloser(strings.NewReader(b)), ContentLength: int64(len(b))}
 }
 
 func renderHAR(h *har.HAR) string {
@@ -146,6 +154,10 @@ func renderHAR(h *har.HAR) string {
 		}
 		if e.Response != nil {
 			me.respTag = e.Response.Status - 200
+			// "each response attached to its own request": the logged content is the body recorded with it
+			if e.Response.Content == nil || string(e.Response.Content.Text) != resBody(me.respTag) {
+				me.id += "!content"
+			}
 		}
 		es = append(es, me)
 	}
